@@ -53,6 +53,13 @@ func c04Judge(r *mon.Run, t *mon.Tally, wl string, idx int, lexemes []string, ty
 		return gram, false
 	}
 	accepted := o.Err == nil
+	if idx%8 == 5 || wl != "exhaustive" {
+		// the other compile entry point accepts and rejects the same expressions (it panics where Compile errors)
+		mo := mon.Guard(func() (interface{}, error) { jmespath.MustCompile(expr); return nil, nil })
+		if mo.Panicked == accepted {
+			r.Violate(&mon.Violation{Workload: wl, Index: idx, API: "MustCompile", Expr: expr, Expected: "MustCompile panics exactly when Compile rejects (Compile: " + o.String() + ")", Observed: mo.String(), Class: "MustCompile and Compile disagree"})
+		}
+	}
 	switch {
 	case gram && !accepted:
 		t.Count("disagree: grammatical but rejected")
@@ -323,6 +330,15 @@ func c04Long(r *mon.Run) {
 			lxs = append(lxs, lx{c("\"k" + u.s + "z\""), u.ok, fmt.Sprintf("quoted identifier containing %q (context %d)", u.s, k)})
 		}
 	}
+	for _, k := range awkwardKeys { // member names with quotes, backslash runs, dots, syntax look-alikes, spelled by JSON escaping
+		q := gen.QuotedLexeme(k)
+		if k == "" {
+			continue // (the ABNF wants at least one character between the quotes; what "" means is C01's business)
+		}
+		for ci, c := range qctx {
+			lxs = append(lxs, lx{c(q), true, fmt.Sprintf("quoted identifier %s (context %d)", q, ci)})
+		}
+	}
 	nums := []string{"0", "00", "000", "07", "08", "09", "010", "018", "0019", "-0", "-00", "-08", "-09", "-010", "1", "-1", "9", "19", "99", "0x1", "1e1", "1.0", "+1", "--1", "- 1", "١", "1_0", "9223372036854775807", "-9223372036854775808", "0000000000000000000009"}
 	for _, n := range nums {
 		ok := true
@@ -396,6 +412,10 @@ func c04Long(r *mon.Run) {
 					r.Violate(&mon.Violation{Workload: "inside-lexemes", Index: i, API: api, Expr: c.expr, Expected: "rejected at compile time: " + c.what + " is not allowed by the ABNF", Observed: o.String(), Class: "inside-lexemes: accepts-ungrammatical"})
 					return
 				}
+			}
+			if mo := mon.Guard(func() (interface{}, error) { jmespath.MustCompile(c.expr); return nil, nil }); mo.Panicked == c.ok {
+				r.Violate(&mon.Violation{Workload: "inside-lexemes", Index: i, API: "MustCompile", Expr: c.expr, Expected: "MustCompile panics exactly when the expression is not a sentence", Observed: mo.String(), Class: "inside-lexemes: MustCompile and Compile disagree"})
+				return
 			}
 			if c.ok {
 				t.Count("lexeme spellings accepted as the ABNF says")
